@@ -1087,6 +1087,13 @@ class H2Connection:
                 0 <= last_stream_id <= self.HIGHEST_ALLOWED_STREAM_ID):
             raise ValueError("last_stream_id must be a valid stream ID or 0")
 
+        # The GOAWAY frame must fit the peer's SETTINGS_MAX_FRAME_SIZE: check
+        # that before any state is changed or any byte is written.
+        if 8 + len(additional_data or b'') > self.max_outbound_frame_size:
+            raise FrameTooLargeError(
+                "Additional data does not fit into one GOAWAY frame"
+            )
+
         self.state_machine.process_input(ConnectionInputs.SEND_GOAWAY)
 
         # Additional_data must be bytes
@@ -1127,6 +1134,13 @@ class H2Connection:
                     "Setting %d has invalid value %d" % (setting, value),
                     error_code=invalid
                 )
+
+        # All of them go into one SETTINGS frame, which must fit the peer's
+        # SETTINGS_MAX_FRAME_SIZE.
+        if 6 * len(new_settings) > self.max_outbound_frame_size:
+            raise FrameTooLargeError(
+                "Too many settings for one SETTINGS frame"
+            )
 
         self.state_machine.process_input(ConnectionInputs.SEND_SETTINGS)
         self.local_settings.update(new_settings)
@@ -1206,6 +1220,18 @@ class H2Connection:
         if self.config.client_side:
             raise ProtocolError(
                 "Clients cannot advertise alternative services."
+            )
+
+        # The ALTSVC frame carries a 16-bit origin length and must fit the
+        # peer's SETTINGS_MAX_FRAME_SIZE: check both before any state is
+        # changed or any byte is written.
+        if origin is not None and len(origin) > 0xFFFF:
+            raise ValueError("origin must be at most 65535 bytes long")
+
+        if (2 + len(origin or b'') + len(field_value) >
+                self.max_outbound_frame_size):
+            raise FrameTooLargeError(
+                "Alternative service does not fit into one ALTSVC frame"
             )
 
         self.state_machine.process_input(
